@@ -10,7 +10,7 @@
     hash [h]; [H] is Keccak-256 (any function: conclusions are "... or an explicit collision"). *)
 From Coq Require Import List ZArith NArith Bool.
 From Kardia Require Import C11.Varint C11.Proto C11.RLPItem C11.Model C11.ProofsVarint C11.ProofsRLP
-  C11.ProofsSign C11.ProofsTx Generated.C11Facts.
+  C11.ProofsSign C11.ProofsTx C11.ProofsExtra Generated.C11Facts.
 Import ListNotations.
 Local Open Scope N_scope.
 
@@ -206,3 +206,111 @@ Theorem C11_binding_tx :
                exists hs hs', collision H (tx_sighash_preimage hs t) (tx_sighash_preimage hs' t')).
 Proof. exact tx_binding. Qed.
 Print Assumptions C11_binding_tx.
+
+(** the proposer's own signature over the proposal sign bytes verifies (as setProposal checks it) *)
+Theorem C11_proposal_sign_then_verify :
+  forall oracle H chain addr p b r s recid sig,
+    proposal_sign_bytes chain p = Some b -> oracle r s recid = Some (addr, H b) -> recid < 2 ->
+    1 <= r < secp256k1_n -> 1 <= s < secp256k1_n ->
+    len sig = signature_length -> be_val (firstn 32 sig) = r -> be_val (firstn 32 (skipn 32 sig)) = s ->
+    nth 64 sig 0 = recid ->
+    proposal_verify oracle H chain addr p sig = VOk.
+Proof. exact proposal_sign_then_verify. Qed.
+Print Assumptions C11_proposal_sign_then_verify.
+
+(** malformed (r = 0, r >= N, s = 0) or malleable (s > N/2) values are rejected WITH AN ERROR
+    (ErrInvalidSig, or ErrInvalidChainId when V already names another chain) by every signer,
+    for every transaction content and every V *)
+Theorem C11_malformed_values_rejected :
+  forall oracle H sg t,
+    (t_r t = 0 \/ secp256k1_n <= t_r t \/ t_s t = 0 \/ secp256k1_half_n < t_s t) ->
+    sender oracle H sg t = SErrInvalidSig \/ sender oracle H sg t = SErrChainId.
+Proof. exact malformed_values_rejected. Qed.
+Print Assumptions C11_malformed_values_rejected.
+
+(** the (r, N - s) twin of any accepted transaction signature is rejected under every signer,
+    content and V *)
+Theorem C11_high_s_twin_rejected :
+  forall oracle H sg t a sg' t',
+    sender oracle H sg t = SOk a -> t_r t' = t_r t -> t_s t' = secp256k1_n - t_s t ->
+    sender oracle H sg' t' = SErrInvalidSig \/ sender oracle H sg' t' = SErrChainId.
+Proof. exact high_s_twin_rejected. Qed.
+Print Assumptions C11_high_s_twin_rejected.
+
+(** strings SigToPub refuses (length other than 65, r or s outside [1, N-1]) verify for no
+    address and no hash; and that test is exact *)
+Theorem C11_rejected_string_never_verifies :
+  forall oracle addr h sig, sig_to_pub_rejects sig = true -> verify_signature oracle addr h sig = false.
+Proof. exact rejected_never_verifies. Qed.
+Print Assumptions C11_rejected_string_never_verifies.
+
+Theorem C11_sig_to_pub_rejects_exact :
+  forall sig,
+    sig_to_pub_rejects sig = false <->
+    len sig = signature_length /\ 1 <= be_val (firstn 32 sig) < secp256k1_n /\
+    1 <= be_val (firstn 32 (skipn 32 sig)) < secp256k1_n.
+Proof. exact sig_to_pub_rejects_iff. Qed.
+Print Assumptions C11_sig_to_pub_rejects_exact.
+
+(** Vote.ValidateBasic accepts exactly: type prevote or precommit, block id nil or complete,
+    non-empty signature *)
+Theorem C11_vote_validate_basic :
+  forall v n,
+    vote_validate_basic v n = VBOk <->
+    (v_type v = prevote_type \/ v_type v = precommit_type) /\
+    (bid_is_zero (v_bid v) = true \/ bid_is_complete (v_bid v) = true) /\ n <> 0.
+Proof. exact vote_validate_basic_ok. Qed.
+Print Assumptions C11_vote_validate_basic.
+
+(** Proposal.ValidateBasic accepts exactly: complete block id, at most MaxBlockPartsCount
+    parts, non-empty signature *)
+Theorem C11_proposal_validate_basic :
+  forall p n,
+    proposal_validate_basic p n = VBOk <->
+    bid_is_complete (p_bid p) = true /\ b_total (p_bid p) <= max_block_parts_count /\ n <> 0.
+Proof. exact proposal_validate_basic_ok. Qed.
+Print Assumptions C11_proposal_validate_basic.
+
+(** C11_binding for decoded votes: the type-range hypothesis is discharged by ValidateBasic *)
+Theorem C11_binding_validated :
+  forall oracle H chain addr vaddr v chain' addr' vaddr' v' sig n n',
+    vote_validate_basic v n = VBOk -> vote_validate_basic v' n' = VBOk ->
+    wf_bid (v_bid v) -> wf_bid (v_bid v') ->
+    vote_verify oracle H chain addr vaddr v sig = VOk ->
+    vote_verify oracle H chain' addr' vaddr' v' sig = VOk ->
+    addr = addr' /\ vaddr = vaddr' /\
+    ((chain = chain' /\ v = v') \/
+     exists b b', vote_sign_bytes chain v = Some b /\ vote_sign_bytes chain' v' = Some b' /\ collision H b b').
+Proof.
+  exact (fun oracle H chain addr vaddr v chain' addr' vaddr' v' sig n n' V V' =>
+           vote_binding oracle H chain addr vaddr v chain' addr' vaddr' v' sig
+             (validated_vote_type v n V) (validated_vote_type v' n' V')).
+Qed.
+Print Assumptions C11_binding_validated.
+
+(** MakeSigner: the chain-id signer is selected exactly from the fork block on (and stays),
+    and that signer rejects a transaction signed for another non-zero chain id *)
+Theorem C11_make_signer_fork_boundary :
+  forall c s h, (s <= h -> make_signer (Some c) (Some s) (Some h) = ChainIDSigner c) /\
+                (h < s -> make_signer (Some c) (Some s) (Some h) = Homestead).
+Proof.
+  exact (fun c s h => conj (fun L => make_signer_forked c (Some s) (Some h) (proj2 (is_forked_iff s h) L))
+                           (fun L => make_signer_unforked (Some c) (Some s) (Some h)
+                                       (proj2 (N.leb_gt s h) L))).
+Qed.
+Print Assumptions C11_make_signer_fork_boundary.
+
+Theorem C11_make_signer_chain_bound :
+  forall oracle H c c' s h recid t,
+    s <= h -> c' <> 0 -> recid < 2 -> c <> c' ->
+    t_v t = signature_v (ChainIDSigner c') recid ->
+    sender oracle H (make_signer (Some c) (Some s) (Some h)) t = SErrChainId.
+Proof. exact make_signer_chain_bound. Qed.
+Print Assumptions C11_make_signer_chain_bound.
+
+(** source tie: the guards and machine arithmetic of the model are the expressions of the Go
+    sources themselves, regenerated on every check (statement spelled out in SourceTie.v) *)
+From Kardia Require Import C11.SourceTie.
+Theorem C11_source_tie : C11_source_tie_statement.
+Proof. exact C11_source_tie_proof. Qed.
+Print Assumptions C11_source_tie.
